@@ -187,4 +187,31 @@ set_option maxRecDepth 16384 in
 theorem request_response_same_commands :
     (requestTable.map (fun r => bcode r.1)) = (responseTable.map (fun r => bcode r.1)) := by decide
 
+/-! ## a message cut short is never delivered -/
+
+theorem takeN_short : ∀ (n : Nat) (s acc : List Nat), s.length < n → takeN n s acc = none
+  | 0, s, acc, h => by omega
+  | n + 1, [], acc, _ => by simp [takeN]
+  | n + 1, b :: rest, acc, h => by
+    rw [takeN]; exact takeN_short n rest _ (by simpa using h)
+
+/-- A message whose content is cut short (connection dropped mid-message) is never delivered:
+`ReadBaseMessage` reports EOF (nothing of the content arrived) or unexpected EOF. -/
+theorem base_truncated_content (c : List Nat) (hc : c.length ≤ cContentMaxLength) (k : Nat) (hk : k < c.length) :
+    readBase (writeHeader c.length ++ c.take k) = .error (if k = 0 then .eof else .ueof) := by
+  unfold readBase
+  rw [read_len_write_header c.length hc]
+  simp only []
+  rw [takeN_short c.length (c.take k) [] (by simp; omega)]
+  cases k with
+  | zero => simp
+  | succ j =>
+    have : (c.take (j + 1)).isEmpty = false := by
+      cases c with
+      | nil => simp at hk
+      | cons a t => simp
+    simp [this]
+
+example : readBase (writeHeader 3 ++ [1, 2]) = .error .ueof := base_truncated_content [1, 2, 3] (by decide) 2 (by decide)
+
 end WaVerif.C26
